@@ -37,7 +37,7 @@ type c13Scenario struct {
 
 func c13Gen(t *simrt.Tape) *c13Scenario {
 	sc := &c13Scenario{}
-	sc.Cmd = []string{"histo", "histo", "table", "bars"}[t.W(4)]
+	sc.Cmd = []string{"histo", "histo", "table", "bars", "heatmap", "spark"}[t.W(6)]
 	sc.Sort = []string{"text", "numeric", "contextual", "date", "value"}[t.W(5)]
 	sc.Mod = []string{"", "", ":asc", ":desc", ":reverse"}[t.W(5)]
 	// the pool follows the sort mode most of the time, so that the comparators see what they are made for
@@ -84,7 +84,7 @@ func c13Gen(t *simrt.Tape) *c13Scenario {
 	for range sc.Keys {
 		sc.Counts = append(sc.Counts, 1+t.W(3))
 	}
-	if sc.Cmd == "table" {
+	if sc.Cmd == "table" || sc.Cmd == "heatmap" || sc.Cmd == "spark" {
 		sc.Cols = pick(t.WRange(2, 5))
 	}
 	return sc
@@ -94,7 +94,7 @@ func (sc *c13Scenario) lines() []c3Line {
 	var out []c3Line
 	for i, k := range sc.Keys {
 		for c := 0; c < sc.Counts[i]; c++ {
-			if sc.Cmd == "table" {
+			if len(sc.Cols) > 0 {
 				col := sc.Cols[(i+c)%len(sc.Cols)]
 				out = append(out, c3Line{Raw: col + "\t" + k})
 			} else {
@@ -126,10 +126,13 @@ func (sc *c13Scenario) scenario(sortArg string, t *simrt.Tape, shuffle []int) *c
 		out.Regex = `^(.*)$`
 		out.Tpls = []c3Tpl{{{Grp: 1}}}
 		out.Flags = append(common, "bars", "--sort", sortArg)
-	case "table":
+	case "table", "heatmap", "spark":
 		out.Regex = `^([^\t]*)\t([^\t]*)$`
 		out.Tpls = []c3Tpl{{{Grp: 1}}, {{Grp: 2}}}
-		out.Flags = append(common, "table", "--num", "1000", "--cols", "1000", "--sort-rows", sortArg, "--sort-cols", sortArg)
+		out.Flags = append(common, sc.Cmd, "--num", "1000", "--cols", "1000", "--sort-rows", sortArg, "--sort-cols", sortArg)
+		if sc.Cmd == "spark" {
+			out.Flags = append(out.Flags, "--notruncate")
+		}
 	}
 	return out
 }
@@ -164,6 +167,23 @@ func (sc *c13Scenario) labels(stdout string) (rows, cols []string, err error) {
 			}
 			rows = append(rows, m[1])
 		}
+	case "heatmap", "spark":
+		// heatmap: legend line + compressed column header; spark: one header line. Only the row labels are
+		// observable as text (columns are one cell wide), so only the row order is compared
+		skip := 1
+		if sc.Cmd == "heatmap" {
+			skip = 2
+		}
+		if len(body) < skip {
+			return nil, nil, nil
+		}
+		for _, l := range body[skip:] {
+			f := strings.Fields(l)
+			if len(f) == 0 {
+				return nil, nil, fmt.Errorf("cannot parse %s line %q", sc.Cmd, l)
+			}
+			rows = append(rows, f[0])
+		}
 	case "table":
 		if len(body) == 0 {
 			return nil, nil, nil
@@ -192,7 +212,7 @@ func init() {
 	worlds["C13"] = func(rc *RunCtx) {
 		t := rc.Tape
 		sc := c13Gen(t)
-		if sc.Cmd == "table" {
+		if len(sc.Cols) > 0 {
 			// table cells are parsed by whitespace: keep keys free of spaces (none of the pools has them)
 			for _, k := range append(append([]string{}, sc.Keys...), sc.Cols...) {
 				if strings.ContainsAny(k, " \t") {
